@@ -1,12 +1,31 @@
 (* C10: heap footprint is bounded by peak live data.
-   Statement proved: the allocation frontier moves only when BOTH free lists are exhausted, i.e.
-   when the reuse list is just the reserved block and the deferred list is empty - so every block
-   below the frontier except the reserved one is counted, and (by C09's RC clause) referenced.
-   The quantitative bound and the constant-space corollary for loops are checked by execution
-   (frontier <= peak blocks in use + 2 at every run; equal frontier after 8 and 32 iterations of
-   the allocation-loop families); they are not yet theorems. *)
+   Proofs in Model/Heap.v (acquire_frontier) and Proof/HeapTrace.v.
+
+   PROVED (abstract allocator, operation traces from the initial state)
+     * the allocation frontier moves only when BOTH free lists are exhausted, i.e. when the reuse
+       list is just the reserved block and the deferred list is empty       [C10_frontier_moves_only_when_nothing_reusable]
+     * quantitative bound: (frontier - base) / 64 <= peak + 1, where peak bounds the number of
+       blocks in use (counted + deferred) over the states of the trace.  The constant is 1 (the
+       block reserved in the heap register), and it is tight                 [C10_footprint_bound]
+     * once the peak has been attained the frontier is EXACTLY base + (peak + 1) * 64 and never
+       moves again                                                           [C10_footprint_exact]
+     * the number of blocks in use is a function of the state (it does not depend on the choice
+       of the ghost lists)                                                   [C10_in_use_unique]
+     * space independent of the number of repetitions, in the form: two traces from the initial
+       state with the same peak of blocks in use end with the same frontier; instantiated with
+       setup ++ n1 x body and setup ++ n2 x body                             [C10_loop_space_constant, C10_loop_space_constant_iter]
+       Relation to the property text: "a computation that repeatedly builds and drops structures"
+       has a peak of simultaneously reachable blocks that does not depend on the number of
+       repetitions (that is a fact about the program, given here as the hypotheses peak_bound /
+       peak_attained); the theorem turns it into equal frontiers.  "Reachable" in the text is
+       "counted + deferred" here: a dropped structure stays counted beneath its deferred root until
+       allocation recycles it, which is why the in-use count, not the reachable count, is the
+       measure that is exact.
+   NOT YET PROVED: the lifting from operation traces to programs (as C09); the executable check
+   (frontier <= peak + 2 at every run, peak sampled at statement boundaries only; equal frontier
+   after 8 and 32 iterations of the allocation-loop families) covers that link. *)
 From Coq Require Import List ZArith Permutation.
-From SCC Require Import Model.Heap.
+From SCC Require Import Model.Heap Proof.HeapMore Proof.HeapTrace.
 Import ListNotations.
 Open Scope Z_scope.
 
@@ -17,3 +36,42 @@ Theorem C10_frontier_moves_only_when_nothing_reusable :
     (frontier (snd (acquire s)) = frontier s + BLOCK /\ hl = [heap s] /\ fl = []).
 Proof. exact acquire_frontier. Qed.
 Print Assumptions C10_frontier_moves_only_when_nothing_reusable.
+
+Theorem C10_footprint_bound :
+  forall base ops pk,
+    0 < base -> pre_trace (init base) [] ops -> peak_bound base ops pk ->
+    (frontier (fst (grun ops (init base, []))) - base) / BLOCK <= Z.of_nat pk + 1.
+Proof. exact footprint_bound. Qed.
+Print Assumptions C10_footprint_bound.
+
+Theorem C10_footprint_exact :
+  forall base ops pk,
+    0 < base -> pre_trace (init base) [] ops -> peak_bound base ops pk -> peak_attained base ops pk ->
+    frontier (fst (grun ops (init base, []))) = base + (Z.of_nat pk + 1) * BLOCK.
+Proof. exact footprint_exact. Qed.
+Print Assumptions C10_footprint_exact.
+
+Theorem C10_in_use_unique :
+  forall base sr n1 n2, in_use base sr n1 -> in_use base sr n2 -> n1 = n2.
+Proof. exact in_use_unique. Qed.
+Print Assumptions C10_in_use_unique.
+
+Theorem C10_loop_space_constant :
+  forall base ops1 ops2 pk,
+    0 < base -> pre_trace (init base) [] ops1 -> pre_trace (init base) [] ops2 ->
+    peak_bound base ops1 pk -> peak_attained base ops1 pk ->
+    peak_bound base ops2 pk -> peak_attained base ops2 pk ->
+    frontier (fst (grun ops1 (init base, []))) = frontier (fst (grun ops2 (init base, []))).
+Proof. exact loop_space_constant. Qed.
+Print Assumptions C10_loop_space_constant.
+
+Theorem C10_loop_space_constant_iter :
+  forall base setup body n1 n2 pk,
+    0 < base ->
+    pre_trace (init base) [] (setup ++ iterate n1 body) -> pre_trace (init base) [] (setup ++ iterate n2 body) ->
+    peak_bound base (setup ++ iterate n1 body) pk -> peak_attained base (setup ++ iterate n1 body) pk ->
+    peak_bound base (setup ++ iterate n2 body) pk -> peak_attained base (setup ++ iterate n2 body) pk ->
+    frontier (fst (grun (setup ++ iterate n1 body) (init base, []))) =
+    frontier (fst (grun (setup ++ iterate n2 body) (init base, []))).
+Proof. exact loop_space_constant_iter. Qed.
+Print Assumptions C10_loop_space_constant_iter.
